@@ -1727,6 +1727,8 @@ where
             }
         } else if self.status == ConnectionStatus::Connected {
             // process auto applying TopicAlias if the option is enabled
+            // (the rewritten packet is used only if it still fits the peer's Maximum Packet Size)
+            let max_size = self.maximum_packet_size_send as usize;
             if self.auto_map_topic_alias_send {
                 if let Some(ref mut topic_alias_send) = self.topic_alias_send {
                     if let Some(found_ta) = topic_alias_send.find_by_topic(packet.topic_name()) {
@@ -1735,11 +1737,17 @@ where
                             packet.topic_name(),
                             found_ta
                         );
-                        packet = packet.remove_topic_add_topic_alias(found_ta);
+                        let rewritten = packet.clone().remove_topic_add_topic_alias(found_ta);
+                        if rewritten.size() <= max_size {
+                            packet = rewritten;
+                        }
                     } else {
                         let lru_ta = topic_alias_send.get_lru_alias();
-                        topic_alias_send.insert_or_update(packet.topic_name(), lru_ta);
-                        packet = packet.add_topic_alias(lru_ta);
+                        let rewritten = packet.clone().add_topic_alias(lru_ta);
+                        if rewritten.size() <= max_size {
+                            topic_alias_send.insert_or_update(packet.topic_name(), lru_ta);
+                            packet = rewritten;
+                        }
                     }
                 }
             } else if self.auto_replace_topic_alias_send {
@@ -1750,7 +1758,10 @@ where
                             packet.topic_name(),
                             found_ta
                         );
-                        packet = packet.remove_topic_add_topic_alias(found_ta);
+                        let rewritten = packet.clone().remove_topic_add_topic_alias(found_ta);
+                        if rewritten.size() <= max_size {
+                            packet = rewritten;
+                        }
                     }
                 }
             }
